@@ -188,6 +188,10 @@ impl ReadXml for Maybe<Candidate> {
         };
         let mut name = None;
         let mut reject_policy = false;
+        // An annotated policy-statement with any content besides `<name>` and a trivial reject
+        // action (terms, match conditions, other actions) is not ours to manage: skip it, rather
+        // than failing to read the whole configuration.
+        let mut other_content = false;
         loop {
             match reader.read_resolved_event()? {
                 (ResolveResult::Bound(XNM), Event::Start(tag))
@@ -209,6 +213,11 @@ impl ReadXml for Maybe<Candidate> {
                             }
                             (_, Event::Comment(_)) => continue,
                             (_, Event::End(tag)) if tag == end => break,
+                            (_, Event::Empty(_)) => other_content = true,
+                            (_, Event::Start(tag)) => {
+                                _ = reader.read_to_end(tag.to_end().name())?;
+                                other_content = true;
+                            }
                             (ns, event) => {
                                 tracing::error!(?event, ?ns, "unexpected xml event");
                                 return Err(ReadError::UnexpectedXmlEvent(event.into_owned()));
@@ -218,13 +227,18 @@ impl ReadXml for Maybe<Candidate> {
                 }
                 (_, Event::Comment(_)) => continue,
                 (_, Event::End(tag)) if tag == end => break,
+                (_, Event::Empty(_)) => other_content = true,
+                (_, Event::Start(tag)) => {
+                    _ = reader.read_to_end(tag.to_end().name())?;
+                    other_content = true;
+                }
                 (ns, event) => {
                     tracing::error!(?event, ?ns, "unexpected xml event");
                     return Err(ReadError::UnexpectedXmlEvent(event.into_owned()));
                 }
             }
         }
-        if reject_policy {
+        if reject_policy && !other_content {
             Ok(Self(Some((
                 name.ok_or(ReadError::MissingElement {
                     msg_type: "policy-statement",
